@@ -199,7 +199,13 @@ def rule_c(ck, R):
         if (r.name == 'send_resp_32') != want32 or r.name not in ('send_resp_0', 'send_resp_32'):
             d.append('status %s answered through %s (document: %s)' % (name, r.name, '32-bit payload' if want32 else 'no payload'))
             continue
-        if r.args[2] != C(st):
+        code_arg = r.args[2]
+        if not sym.is_c(code_arg):
+            # the code may be passed as the verdict itself; on this path the switch has pinned it to a constant
+            for c in p.cond_terms():
+                if c[0] == 'cmp' and c[1] == '==' and strip_cast(c[2]) == strip_cast(code_arg) and sym.is_c(c[3]):
+                    code_arg = c[3]
+        if code_arg != C(st):
             d.append('backend verdict %s is answered with code %s' % (name, fmt(r.args[2])))
             continue
         if r.args[-1] != C(MSEM_8BIT):
